@@ -142,7 +142,7 @@ def run(tier):
             byop.setdefault(s["op"], []).append(s)
         for op, lst in sorted(byop.items()):
             cap = per_heavy if (op in HEAVY and c != "jubjub") else per_op
-            pick = lst if len(lst) <= cap else rng.sample(lst, cap)
+            pick = lst if (len(lst) <= cap or op == "from_coords") else rng.sample(lst, cap)     # (every coordinate class, always)
             # the inputs of the recorded known findings are always replayed
             for s in lst:
                 if s not in pick and classify({"op": op, "curve": c, "pts": s["pts"], "params": s["params"], "scalars": s["scalars"]}) != "other" \
